@@ -204,6 +204,36 @@ func (r *VerifFwRecorder) AddRule(incoming bool, proto uint8, startPort int32, e
 	return nil
 }
 
+// VerifFwLoadYAML parses YAML text the way nebula's config loader does.
+func VerifFwLoadYAML(text string) (*config.C, error) {
+	c := config.NewC(verifFwLogger)
+	err := c.LoadString(text)
+	return c, err
+}
+
+// VerifRulesFromC runs the real AddFirewallRulesFromConfig against a recorder.
+func VerifRulesFromC(inbound bool, c *config.C) (rec *VerifFwRecorder, ok bool, panicked bool) {
+	rec = &VerifFwRecorder{}
+	defer func() {
+		if p := recover(); p != nil {
+			ok, panicked = false, true
+		}
+	}()
+	err := AddFirewallRulesFromConfig(verifFwLogger, inbound, c, rec)
+	return rec, err == nil, false
+}
+
+// AddFromC runs the real AddFirewallRulesFromConfig against the real Firewall.
+func (v *VerifFw) AddFromC(inbound bool, c *config.C) (ok bool, panicked bool) {
+	defer func() {
+		if p := recover(); p != nil {
+			ok, panicked = false, true
+		}
+	}()
+	err := AddFirewallRulesFromConfig(verifFwLogger, inbound, c, v.fw)
+	return err == nil, false
+}
+
 func verifFwConfig(inbound bool, rules any) *config.C {
 	c := config.NewC(verifFwLogger)
 	key := "outbound"
